@@ -1,5 +1,6 @@
 """C17 - The sampling policy alone decides which recordings are kept (DESIGN.md section 6, C17)."""
 import itertools
+import os
 import random
 from fractions import Fraction
 
@@ -85,6 +86,8 @@ class C17(RecorderProp):
             cases += self.history_group(rng, self.HIST[tier])
         for _ in range(4 if tier == 'quick' else 60):
             cases.append(self.s3_case(rng))
+        for _ in range(2 if tier == 'quick' else 8):
+            cases.append(self.s3_process_case(rng))
         return cases
 
     def history_group(self, rng, n):
@@ -123,6 +126,39 @@ class C17(RecorderProp):
                     'plan': [[c, f, d] for c, f, d in plan], 'variant': variant}
         return [build(0), build(0), build(1)]
 
+    def s3_process_case(self, rng):
+        """the S3 cassette's own seeded generator, untouched: the same saves in two interpreters (different string-hash salts)"""
+        return {'kind': 's3process', 'model': False, 'prefix': rng.choice(['', 'pre', 'proj/a', 'x']),
+                'ratio': rng.choice([[1, 2], [1, 4], [3, 4]]), 'n': 40}
+
+    @staticmethod
+    def run_s3_process(case):
+        import json
+        import subprocess
+        import sys
+        code = (
+            "import sys, json\n"
+            "sys.path.insert(0, %r); sys.path.insert(0, %r)\n"
+            "from harness import fake_s3\n"
+            "fake_s3.reset(); fake_s3.install()\n"
+            "from playback.tape_cassettes.s3.s3_tape_cassette import S3TapeCassette\n"
+            "c = S3TapeCassette('b17p', key_prefix=%r, read_only=False, sampling_calculator=lambda cat, size, rec: %r)\n"
+            "out = []\n"
+            "for i in range(%d):\n"
+            "    r = c.create_new_recording('Op'); r.set_data('k', i)\n"
+            "    before = len(fake_s3.store('b17p').log); c.save_recording(r)\n"
+            "    out.append(len(fake_s3.store('b17p').log) > before)\n"
+            "print(json.dumps(out))\n"
+        ) % (engine.REPO, engine.VERIF, case['prefix'], float(case['ratio'][0]) / case['ratio'][1], case['n'])
+        runs = []
+        for salt in ('1', '2'):
+            p = subprocess.run([sys.executable, '-c', code], capture_output=True, text=True, timeout=120,
+                               env=dict(os.environ, PYTHONHASHSEED=salt))
+            if p.returncode != 0:
+                return {'error': p.stderr[-800:]}
+            runs.append(json.loads(p.stdout.strip().splitlines()[-1]))
+        return {'runs': runs}
+
     def s3_case(self, rng):
         return {'kind': 's3sample', 'ratios': [rng.choice([[0, 1], [1, 4], [1, 2], [1, 1], [3, 2], None]) for _ in range(8)],
                 'draws': [rng.choice([[0, 1], [1, 4], [1, 2], [3, 4], [15, 16]]) for _ in range(8)],
@@ -131,6 +167,8 @@ class C17(RecorderProp):
 
     # -- S3 storage-level sampling ------------------------------------------------------------------------------
     def run_impl(self, case):
+        if case.get('kind') == 's3process':
+            return self.run_s3_process(case)
         if case.get('kind') != 's3sample':
             return super(C17, self).run_impl(case)
         from harness import fake_s3
@@ -182,16 +220,22 @@ class C17(RecorderProp):
         return out
 
     def model_requests(self, case):
+        if case.get('kind') == 's3process':
+            return []
         if case.get('kind') != 's3sample':
             return super(C17, self).model_requests(case)
         return [{'m': 'c17.s3', 'ratio': r, 'draw': d} for r, d in zip(case['ratios'], case['draws'])]
 
     def model_transcript(self, case, answers):
+        if case.get('kind') == 's3process':
+            return None
         if case.get('kind') != 's3sample':
             return super(C17, self).model_transcript(case, answers)
         return [{'stored': a} for a in answers]
 
     def impl_view(self, case, impl):
+        if case.get('kind') == 's3process':
+            return None
         if case.get('kind') != 's3sample':
             return super(C17, self).impl_view(case, impl)
         return [{'stored': r['stored']} for r in impl]
@@ -236,6 +280,16 @@ class C17(RecorderProp):
     # -- oracle ----------------------------------------------------------------------------------------------------
     def oracle(self, case, impl):
         fails = []
+        if case.get('kind') == 's3process':
+            if 'error' in impl:
+                return ['S3 cassette in a fresh interpreter: ' + impl['error']]
+            a, b = impl['runs']
+            if a != b:
+                diff = [i for i, (x, y) in enumerate(zip(a, b)) if x != y]
+                return ['the same %d saves (ratio %r, key prefix %r) through the S3 cassette\'s own seeded generator in two interpreters '
+                        '(PYTHONHASHSEED 1 / 2): %d keep / drop decisions differ, first at save %d'
+                        % (case['n'], case['ratio'], case['prefix'], len(diff), diff[0])]
+            return []
         if case.get('kind') == 's3sample':
             for i, (ratio, d, r) in enumerate(zip(case['ratios'], case['draws'], impl)):
                 want = ratio is None or Fraction(*ratio) >= 1 or Fraction(*d) <= Fraction(*ratio)
@@ -285,11 +339,13 @@ class C17(RecorderProp):
         return fails
 
     def nontrivial(self, case, impl):
-        if case.get('kind') == 's3sample':
+        if case.get('kind') in ('s3sample', 's3process'):
             return True
         return any(r.get('log') for r in impl)
 
     def features(self, case, impl):
+        if case.get('kind') == 's3process':
+            return ['s3-own-generator-two-interpreters']
         if case.get('kind') == 's3sample':
             return ['s3sample']
         if 'row' in case:
@@ -303,7 +359,7 @@ class C17(RecorderProp):
         return case
 
     def shrink(self, case):
-        if case.get('kind') == 's3sample' or 'row' in case:
+        if case.get('kind') in ('s3sample', 's3process') or 'row' in case:
             return []
         out = []
         n = len(case['runs'])
